@@ -51,7 +51,7 @@ Definition mbr_read (s : mbr) (m : nat) : list A * option rerr * mbr :=
     match m with
     | O => ([], None, s)
     | _ =>
-      let m' := if Z.of_nat m >? m_n s + 1 then Z.to_nat (m_n s + 1) else m in
+      let m' := if Z.of_nat m - 1 >? m_n s then Z.to_nat (m_n s + 1) else m in
       let '(d, e, u') := u_read (m_u s) m' in
       let k := Z.of_nat (length d) in
       if k <=? m_n s
@@ -79,7 +79,9 @@ Definition mbr_init (limit : Z) (body : list A) (script : list nat) (eofd : bool
 
 (* maxBytesReader.Read with the arithmetic Go performs: l.n+1 and l.n-n are int64 operations
    that wrap, p[:l.n+1] panics for a negative bound, and `n = int(l.n)` is returned as is
-   (a negative count when l.n < 0). *)
+   (a negative count when l.n < 0).  The guard is `int64(len(p))-1 > l.n` as in net/http (ec3b610;
+   before, `int64(len(p)) > l.n+1`, whose right-hand side wraps for l.n = 2^63-1): len(p) is a Go
+   int, 0 < len(p) < 2^63 here, so the left-hand side cannot wrap. *)
 Definition mbr_read64 (s : mbr) (m : nat) : r64 (list A * option rerr * mbr) :=
   match m_err s with
   | Some e => R_ok ([], Some e, s)
@@ -88,8 +90,9 @@ Definition mbr_read64 (s : mbr) (m : nat) : r64 (list A * option rerr * mbr) :=
     | O => R_ok ([], None, s)
     | _ =>
       let n1 := wrap64 (m_n s + 1) in
-      if (Z.of_nat m >? n1) && (n1 <? 0) then R_panic else
-      let m' := if Z.of_nat m >? n1 then Z.to_nat n1 else m in
+      let cut := Z.of_nat m - 1 >? m_n s in
+      if cut && (n1 <? 0) then R_panic else
+      let m' := if cut then Z.to_nat n1 else m in
       let '(d, e, u') := u_read (m_u s) m' in
       let k := Z.of_nat (length d) in
       if k <=? m_n s
@@ -198,7 +201,7 @@ Definition cnt_read (s : cst) (m : Z) (answers : list answer)
   | None =>
     if m =? 0 then R_ok (0, None, s, answers) else
     let n1 := wrap64 (c_n s + 1) in
-    if (m >? n1) && (n1 <? 0) then R_panic else
+    if (m - 1 >? c_n s) && (n1 <? 0) then R_panic else
     let '(c, e, rest) := match answers with [] => (0, Some EOF, []) | (c, e) :: r => (c, e, r) end in
     if c <=? c_n s
     then R_ok (c, e, {| c_n := wrap64 (c_n s - c); c_err := e |}, rest)
@@ -254,6 +257,10 @@ Definition has_suffix (s suf : bytes) : bool :=
   Nat.leb (length suf) (length s) && beq (skipn (length s - length suf) s) suf.
 Definition units : list (bytes * Z) :=
   [(bs "KB"%string, 1024); (bs "MB"%string, 1048576); (bs "GB"%string, 1073741824); (bs "B"%string, 1); ([], 1)].
+(* `if size < 0 || size > math.MaxInt64/unit.multiplier { return -1 }; return size * unit.multiplier`:
+   the int64 product is only formed when it fits (b9c6637; before, the wrapped product was returned) *)
+Definition size_times (n mult : Z) : Z :=
+  if (n <? 0) || (n >? max_int64 / mult) then -1 else wrap64 (n * mult).
 Fixpoint parse_size_units (s : bytes) (us : list (bytes * Z)) : Z :=
   match us with
   | [] => -1
@@ -261,7 +268,7 @@ Fixpoint parse_size_units (s : bytes) (us : list (bytes * Z)) : Z :=
     if has_suffix s sym
     then match parse_int64 (firstn (length s - length sym) s) with
          | None => -1
-         | Some n => wrap64 (n * mult)          (* size * unit.multiplier: int64 product *)
+         | Some n => size_times n mult
          end
     else parse_size_units s r
   end.
@@ -309,21 +316,39 @@ Definition limits_form_result (form : N) (s : bytes) : option (option Z * option
 
 (* ---- client-visible status of the handlers that read the body ---- *)
 Inductive consumer := ProxyStream | ProxyBuffered | Fastcgi.
-(* what the body's consumer makes of the error its reads ended with: proxy.ServeHTTP compares the
-   RoundTrip error with ErrMaxBytesExceeded by identity (==): net/http hands the body error back
-   unchanged for a chunked upload, but wrapped in a *net.OpError ("readfrom") when the request has
-   a Content-Length; with several upstreams and try_duration the body is buffered first and any
-   read error answers 400; fastcgi's client ignores the error of io.Copy(stdin, body) and relays
-   whatever the responder says (200 here) *)
+(* what the body's consumer makes of the error its reads ended with: proxy.ServeHTTP recognises
+   ErrMaxBytesExceeded in the RoundTrip error with errors.Is (casket bdcc677; before, by ==), so
+   however net/http hands the body error back (unchanged for a chunked upload, wrapped in a
+   *net.OpError ("readfrom") when the request has a Content-Length) the answer is 413;
+   with several upstreams and try_duration the body is buffered first: the too-large error of
+   newBufferedBody answers 413 (casket c877bef; before, 400 like any other read error);
+   fastcgi's client gives up when the body cannot be read to its end and Handler.ServeHTTP maps
+   ErrMaxBytesExceeded to 413 (casket e7d21d5; before, Do ignored the error of io.Copy(stdin, body),
+   ended the stream and relayed the responder's answer to the truncated body) *)
 Definition consumer_status (k : consumer) (cl_framed : bool) (e : option rerr) (backend_status : Z) : Z :=
   match e with
   | Some TooLarge =>
     match k with
-    | ProxyStream => if cl_framed then 502 else 413
-    | ProxyBuffered => 400
-    | Fastcgi => backend_status
+    | ProxyStream => 413
+    | ProxyBuffered => 413
+    | Fastcgi => 413
     end
   | _ => backend_status
+  end.
+(* how much of an over-limit upload has reached the backend when the consumer gives up: the
+   streaming proxy's transport has sent the first [limit] bytes; the buffering proxy contacts
+   nobody (-1); fastcgi's stdin stream goes through a bufio.Writer of maxWrite = 65500 bytes that
+   is flushed only when full and NOT when Do gives up, so whole records only (when the limit is
+   a multiple of 65500 the last full buffer is flushed or not depending on whether the reader
+   reported the error together with the last bytes) *)
+Definition fcgi_max_write : Z := 65500.
+Definition backend_gets_ok (k : consumer) (limit obk : Z) : bool :=
+  match k with
+  | ProxyStream => obk =? limit
+  | ProxyBuffered => obk =? -1
+  | Fastcgi => let q := limit / fcgi_max_write in
+               (obk =? fcgi_max_write * q) ||
+               ((limit mod fcgi_max_write =? 0) && (1 <=? q) && (obk =? fcgi_max_write * (q - 1)))
   end.
 (* the consumer reads the body to the end (or the first error) with some buffer sizes *)
 Definition consumer_reads (limit : Z) (body : list N) (script : list nat) (eofd : bool) (bufs : list nat)
@@ -502,12 +527,12 @@ Definition judge (c : case) : N :=
       let over := limit <? Z.of_nat bodylen in
       let e := if over then Some TooLarge else Some EOF in
       let m_status := consumer_status k (negb chunked) e 200 in
-      let m_backend := if over && (kind =? 1)%N then -1 else Z.min (Z.of_nat bodylen) limit in
+      let backend_ok := if over then backend_gets_ok k limit obk else obk =? Z.of_nat bodylen in
       (* net/http drains up to 256 KiB of an unread body to keep the connection, else closes it *)
       let leftover := Z.of_nat bodylen - limit in
       let fu_ok := if leftover <=? 200000 then fu =? 204
                    else if 300000 <=? leftover then fu =? -2 else (fu =? 204) || (fu =? -2) in
-      let agree := (m_status =? ost) && (m_backend =? obk) && fu_ok in
+      let agree := (m_status =? ost) && backend_ok && fu_ok in
       let spec := pfx && (obk <=? limit) && ((fu =? 204) || (fu =? -2)) &&
                   (if over then ost =? 413 else (ost =? 200) && (obk =? Z.of_nat bodylen) && (fu =? 204)) in
       verdict agree spec
